@@ -278,6 +278,26 @@ def r_repeat( ctx ):
     others = [ s for s in ast.walk( dl ) if isinstance( s, ast.Assign ) and any( dotted( t ) == 'self.cycle' for t in s.targets ) and s not in before ]
     for o in others:
         res.bad( src, o, o, 'cycle may only be reset before the loop' )
+    # ... and the number of cycles required is decided once, ahead of the loop: no store to self.final from the cycle loop on ( a count
+    # lowered to the cycles already done makes the dfa terminal after fewer runs of its sub-grammar than the repeat count demands )
+    late = [ s for s in ast.walk( dl ) if isinstance( s, ( ast.Assign, ast.AugAssign, ast.AnnAssign, ast.Delete ))
+             and any( dotted( t ) == 'self.final' for tg in ( s.targets if isinstance( s, ( ast.Assign, ast.Delete )) else [ s.target ] ) for t in ast.walk( tg ))
+             and getattr( s, 'lineno', 0 ) >= lp.lineno ] \
+         + [ c for c in ast.walk( dl ) if isinstance( c, ast.Call ) and dotted( c.func ) == 'setattr' and c.lineno >= lp.lineno ]
+    for o in late:
+        res.bad( src, o, 'store to the required cycle count once the cycles run ( %s )' % norm_text( o )[:60],
+                 'the repeat count is resolved before the first cycle and must stand: changed while the cycles run, the dfa completes after fewer ( or more ) runs of its sub-grammar than the count says' )
+    if not late:
+        res.ok( src, lp, 'the required cycle count ( self.final ) is fixed ahead of the cycle loop' )
+    # who-may-write: nothing else in the framework stores a dfa's cycle count or its cycle counter
+    owners = ( 'dfa_base.__init__', 'dfa_base.delegate' )
+    foreign = [ ( s, t ) for s in ast.walk( src.tree ) if isinstance( s, ( ast.Assign, ast.AugAssign ))
+                for tg in ( s.targets if isinstance( s, ast.Assign ) else [ s.target ] ) for t in ast.walk( tg )
+                if isinstance( t, ast.Attribute ) and t.attr in ( 'final', 'cycle' ) and src.qualname_of( s ) not in owners ]
+    for s_, t_ in foreign:
+        res.bad( src, s_, 'store to .%s outside dfa_base' % t_.attr, 'only dfa_base.delegate counts cycles and resolves the repeat count' )
+    if not foreign:
+        res.ok( src, dl, 'only dfa_base.__init__ / delegate store .cycle and .final' )
     lf = src.get( 'dfa_base.loop' )
     if pfind( lf, 'return self.cycle < self.final' ):
         res.ok( src, lf, 'loop() = cycle < final' )
